@@ -196,5 +196,71 @@ def r16_4(ctx):
     return r
 
 
+def r16_5(ctx):
+    """RFC 5389 15.4: the long-term key is MD5(username ":" realm ":" password) for the realm the request CARRIES.
+    TurnAuthState caches that key next to the realm; every request builder signs with the cached key and sends
+    the cached realm. So: whenever one of username/realm/password of the state is written, the key is recomputed
+    from the state's own fields AFTERWARDS on every path."""
+    r = RuleResult("R16.5", "K4", "the cached TURN long-term key always belongs to the cached realm")
+    n = 0
+    for b in ctx.facts.bodies(prefix="transports::ice::turn::"):
+        if "::tests::" in b.name:
+            continue
+        inputs = [(bi, si) for bi, si, st in core.field_writes(b, lambda f: f in ("realm", "username", "password"), deep=True)
+                  if _on_auth_state(b, st["p"] if si is not None else st["dst"])]
+        if not inputs:
+            continue
+        r.scope.append(b.name)
+        keyw = []
+        for bi, si, st in core.field_writes(b, lambda f: f == "key"):
+            pl = st["p"] if si is not None else st["dst"]
+            if not _on_auth_state(b, pl):
+                continue
+            v = b.term_rvalue(st["rv"]) if si is not None else b.term_call(st)
+            if v[0] == "call" and v[1].endswith("turn::long_term_key") and \
+                    [mir.field_path(a) and mir.field_path(a).split(".")[-1] for a in v[2]] == ["username", "realm", "password"]:
+                keyw.append(bi)
+        for bi, si in inputs:
+            n += 1
+            ok = bool(keyw) and core.always_followed_by(b, bi, keyw) and not any(
+                bi in b.reachable([t for t, _ in b.succ_edges(k)]) for k in keyw)
+            if ok:
+                r.ok({"site": b.where(bi, si), "then": "key = long_term_key(self.username, self.realm, self.password)"})
+            else:
+                r.violate(b.name, "write:realm-without-rekey", b.where(bi, si),
+                          "username/realm/password of the TURN auth state changes without the long-term key being recomputed from the "
+                          "new values afterwards: requests carry REALM=new but MESSAGE-INTEGRITY keyed for the old realm")
+    r.need("writes of username/realm/password on TurnAuthState", n, 1)
+    # construction: with_key(username, password, realm, nonce, key) gets key = long_term_key(username, realm, password)
+    m = 0
+    for b in ctx.facts.bodies(prefix="transports::ice::turn::"):
+        if "::tests::" in b.name:
+            continue
+        for bi, t, p in core.calls_to(b, suffix("TurnAuthState::with_key")):
+            m += 1
+            a = [b.term_operand(x) for x in t["a"]]
+            want = (a[0], a[2], a[1])
+            if len(a) == 5 and mir.has(a[4], lambda x: x[0] == "call" and x[1].endswith("turn::long_term_key") and tuple(x[2]) == want):
+                r.ok({"site": b.where(bi), "key": "long_term_key(username, realm, password) of the same three values"})
+            else:
+                r.violate(b.name, "call:with_key", b.where(bi),
+                          "TurnAuthState is built with a key that is not long_term_key(username, realm, password) of the values stored with it")
+    agg = 0
+    for b in ctx.facts.bodies(prefix="transports::ice::turn::"):
+        if "::tests::" in b.name:
+            continue
+        for bi, si, st in core.aggregates(b, lambda x: x.endswith("turn::TurnAuthState")):
+            agg += 1
+            if not b.name.endswith("TurnAuthState::with_key"):
+                r.violate(b.name, "agg:TurnAuthState", b.where(bi, si), "TurnAuthState constructed outside with_key")
+    r.need("TurnAuthState::with_key call sites", m, 1)
+    return r
+
+
+def _on_auth_state(b, pl):
+    ty = b.locals[pl["l"]]["ty"]
+    return "TurnAuthState" in ty
+
+
 def run(ctx):
-    return [r16_1(ctx), r16_2(ctx), r16_3(ctx), r16_4(ctx)]
+    return [r16_1(ctx), r16_2(ctx), r16_3(ctx), r16_4(ctx), r16_5(ctx)]
